@@ -78,15 +78,15 @@ func (r *schedReader) Read(p []byte) (int, error) {
 }
 
 type csvConf struct {
-	Delim      string            `json:"delim,omitempty"`
-	EmptyNull  bool              `json:"empty_null,omitempty"`
-	IgnoreEmp  bool              `json:"ignore_empty,omitempty"`
-	Headers    []string          `json:"headers,omitempty"`
-	Types      map[string]string `json:"types,omitempty"`
-	EnumVals   map[string][]string `json:"enum_vals,omitempty"`
-	RenameDup  bool              `json:"rename_dup,omitempty"`
-	Alias      string            `json:"alias,omitempty"`
-	Hint       int               `json:"hint,omitempty"`
+	Delim     string              `json:"delim,omitempty"`
+	EmptyNull bool                `json:"empty_null,omitempty"`
+	IgnoreEmp bool                `json:"ignore_empty,omitempty"`
+	Headers   []string            `json:"headers,omitempty"`
+	Types     map[string]string   `json:"types,omitempty"`
+	EnumVals  map[string][]string `json:"enum_vals,omitempty"`
+	RenameDup bool                `json:"rename_dup,omitempty"`
+	Alias     string              `json:"alias,omitempty"`
+	Hint      int                 `json:"hint,omitempty"`
 }
 
 func (c csvConf) delim() byte {
@@ -129,11 +129,11 @@ func (c csvConf) funcs() []csv.ConfigFunc {
 }
 
 type csvCase struct {
-	Doc   string  `json:"doc"`
-	Conf  csvConf `json:"conf"`
-	Cuts  []int   `json:"cuts,omitempty"`
-	Chunk int     `json:"chunk,omitempty"` // uniform reader: at most Chunk bytes per read
-	EOFWithData bool `json:"eof_with_data,omitempty"`
+	Doc         string  `json:"doc"`
+	Conf        csvConf `json:"conf"`
+	Cuts        []int   `json:"cuts,omitempty"`
+	Chunk       int     `json:"chunk,omitempty"` // uniform reader: at most Chunk bytes per read
+	EOFWithData bool    `json:"eof_with_data,omitempty"`
 	// Cap > 0: run the scanner seam with this initial buffer capacity instead of ReadCSV
 	Cap int `json:"cap,omitempty"`
 	// Gen: regenerate Doc from a generator name (long families), Doc then holds the parameters
@@ -142,7 +142,9 @@ type csvCase struct {
 
 // refCSV computes the frame the document denotes under the configuration.
 func refCSV(doc []byte, conf csvConf, crlfIsLF bool) model.Frame {
-	rej := func(f string, a ...interface{}) model.Frame { return model.Frame{Err: true, ErrText: fmt.Sprintf(f, a...)} }
+	rej := func(f string, a ...interface{}) model.Frame {
+		return model.Frame{Err: true, ErrText: fmt.Sprintf(f, a...)}
+	}
 	recs, err := model.ParseCSV(doc, conf.delim(), crlfIsLF)
 	if err != nil {
 		return rej("malformed: %v", err)
@@ -324,17 +326,11 @@ func (c csvCase) reader(doc []byte) *schedReader {
 	return &schedReader{doc: doc, cuts: c.Cuts, eofWithData: c.EOFWithData, failAt: -1, maxChunk: c.Chunk}
 }
 
-func readCSVWith(doc []byte, c csvCase) model.Frame {
-	// the configuration maps are consumed by ReadCSV (EnumVals entries are deleted): fresh copies per call
-	conf := c.Conf
-	if conf.EnumVals != nil {
-		m := map[string][]string{}
-		for k, v := range conf.EnumVals {
-			m[k] = v
-		}
-		conf.EnumVals = m
-	}
-	return model.Observe(qframe.ReadCSV(c.reader(doc), conf.funcs()...))
+// readCSVWith reads doc with the given option values. The same option values are deliberately
+// reused for the several reads of one case (single read, fragmented read): options are values a
+// caller may keep and pass again, a read must not consume them.
+func readCSVWith(doc []byte, c csvCase, opts []csv.ConfigFunc) model.Frame {
+	return model.Observe(qframe.ReadCSV(c.reader(doc), opts...))
 }
 
 // frameDiffLoose: like model.Diff but an Undef column matches any empty column type.
@@ -359,10 +355,11 @@ func runCSVCase(c csvCase) *core.Failure {
 	if c.Cap > 0 {
 		return runCSVSeam(c, doc)
 	}
-	got := readCSVWith(doc, c)
+	opts := c.Conf.funcs()
 	single := c
 	single.Cuts, single.Chunk, single.EOFWithData = nil, 0, false
-	base := readCSVWith(doc, single)
+	base := readCSVWith(doc, single, opts)
+	got := readCSVWith(doc, c, opts)
 	show := func(d []byte) string {
 		if len(d) > 120 {
 			return fmt.Sprintf("%q...(%d bytes)", d[:120], len(d))
@@ -597,6 +594,9 @@ func c12Run(ctx *core.Ctx) {
 	}
 	// ---- part 2: all fragmentations of tiny documents (no header row, Headers option), through ReadCSV and through the scanner seam with tiny buffers
 	tinyAlpha := csvCellAlphabet(',', true)
+	if full {
+		tinyAlpha = append(tinyAlpha, csvCell{" a ", " a "}, csvCell{"\u00e9", "\u00e9"}, csvCell{",", `","`}, csvCell{"\"", `""""`})
+	}
 	maxL := 11
 	if full {
 		maxL = 13
